@@ -254,6 +254,16 @@ def check_matrix(case, ctx):
         if conf.shape != (len(labels),) or not in01(conf):
             ctx.violation('in-unit-interval', f'{K}/get_line_confidence/range', f'rows {rows}, labels {labels}: {conf}', sub)
             continue
+        # a caller that holds the log-posteriors itself and scores several transcriptions against them: the matrix is only read
+        mine = logp.copy()
+        ca = np.asarray(get_line_confidence(line, lab, aligned, mine), dtype=float)
+        cb = np.asarray(get_line_confidence(line, lab, aligned, mine), dtype=float)
+        ctx.executed(2)
+        if not np.array_equal(mine, logp) or ca.shape != conf.shape or np.abs(ca - conf).max() > TOL or np.abs(cb - conf).max() > TOL:
+            ctx.violation('computed-from-the-lines-own-posteriors', f'{K}/get_line_confidence/caller-supplied-log-probs',
+                          f'rows {rows}, labels {labels}: with the log-posteriors passed in by the caller the first call gives {ca}, the second {cb} '
+                          f'(without: {conf}); matrix modified: {not np.array_equal(mine, logp)}', sub)
+            continue
         path = [int(np.argmax(dense[t])) for t in range(T)]
         col = [k for k, _ in itertools.groupby(path) if k != 2]
         if onehot and col == labels and np.abs(conf - 1).max() > TOL:
